@@ -33,7 +33,7 @@ CONSTANTS
     \* ---- bounds of the fault catalogue ----
     MaxBurst, MaxTail, MaxFaults,
     SampleMod,      \* every SampleMod-th flip/burst is printed with the model's prediction (replayed by the probe)
-    Full            \* hostile family: TRUE = every <type, off, sz>; FALSE = every <off, sz> for CODE, boundary sizes otherwise
+    Full            \* hostile families: TRUE = every <type, off, sz> (W = 8) / the larger boundary set (W = 32)
 
 Pow2(n) == 2 ^ n
 B == Pow2(W \div 2)                                   \* limb base
@@ -265,10 +265,12 @@ MkHostile(entries, x) ==
 SecTypes == {SecStrings, SecCode, SecFunctions, SecDebug, SecImports, 7}
 AllWords == {<<h, l>> : h \in 0..(B - 1), l \in 0..(B - 1)}
 \* boundary words of the real machine, relative to a file of n bytes (n < 2^15)
-Bnd32(n) == {<<0, 0>>, <<0, 1>>, <<0, 4>>, <<0, 32>>, <<0, HeaderSize + SecEntrySize>>,
-             <<0, n - 4>>, <<0, n - 1>>, <<0, n>>, <<0, n + 1>>, <<0, n + 32>>,
-             <<32767, 65535>>, <<32768, 0>>, <<65535, 65535 - n>>, <<65535, 65536 - n>>,
-             <<65535, 65504>>, <<65535, 65520>>, <<65535, 65531>>, <<65535, 65532>>, <<65535, 65535>>}
+Bnd32(n) == {<<0, 0>>, <<0, 1>>, <<0, 32>>, <<0, HeaderSize + SecEntrySize>>,
+             <<0, n - 1>>, <<0, n>>, <<0, n + 1>>,
+             <<32768, 0>>, <<65535, 65536 - n>>,
+             <<65535, 65520>>, <<65535, 65532>>, <<65535, 65535>>}
+            \cup (IF Full THEN {<<0, 4>>, <<0, n - 4>>, <<0, n + 32>>, <<32767, 65535>>, <<65535, 65535 - n>>,
+                                <<65535, 65504>>, <<65535, 65531>>} ELSE {})
 HostLen(k) == HeaderSize + k * SecEntrySize + Len(HostPayload(Zero))
 
 -----------------------------------------------------------------------------
@@ -438,8 +440,8 @@ HostileInit ==
     \/ \E sz \in {Wd(4), Wd(8), Wd(24)} : InitPick("str", SecStrings, PayloadOff(1), sz)
 Forge ==
     /\ stage = "forge"
-    /\ CASE pick.fam = "one" ->
-              \E sz \in (IF Full \/ pick.t = SecCode THEN AllWords ELSE BndW) :
+    /\ CASE pick.fam = "one" ->     \* Full: every <off, sz>; otherwise every off x boundary sz and boundary off x every sz
+              \E sz \in (IF Full \/ pick.off \in BndW THEN AllWords ELSE BndW) :
                   Forged(MkHostile(<<[type |-> pick.t, off |-> pick.off, sz |-> sz]>>, Zero))
          [] pick.fam = "two" ->
               \E sz \in (IF Full THEN AllWords ELSE {Zero, Wd(1), Wd(4), Wd(HostLen(2)), Wd(B * B - 4), Wd(B * B - 1)}) :
